@@ -245,14 +245,14 @@ def gen_cases(chk, tmp):
     if not r.ok or not r.replays:
         raise vlib.ToolError("replay generation failed: " + (r.violation or r.out[-500:]))
     replays = r.replays
-    cap = 1800 if quick else 12000
+    cap = 1800 if quick else 10000
     total_paths = len(replays)
     if len(replays) > cap:
         replays = rng.sample(replays, cap)
     for rp in replays:
         cases.append({"src": gen_src_of_shape(rp[0]["orig"]), "steps": finish_history(rp[1:]), "kind": "tlc-path"})
     n1 = len(cases)
-    nsim = 200 if quick else 2000
+    nsim = 200 if quick else 1500
     rs = vlib.run_tlc("MC_Lazy", "MC_Lazy_sim.cfg", workers=1, coverage=False, simulate=f"num={nsim}",
                       extra=["-depth", "12", "-seed", str(chk.seed)], timeout=3000)
     if rs.rc != 0 or rs.violation or not rs.replays:
@@ -280,10 +280,12 @@ def gen_cases(chk, tmp):
         allrefs = set(x for s in v["sheets"] for x in s["chartrefs"])
         src = {"kind": "file", "name": f}
         size = os.path.getsize(os.path.join(CORPUS, f))
-        quota = per_file if size < 100_000 else max(12, per_file // 3) if size < 500_000 else max(8, per_file // 10)
-        if quick:
-            quota = per_file
-        picked = rng.sample(short, min(quota, len(short))) + [rp[1:] for rp in rng.sample(sims, min(quota // 3, len(sims)))]
+        # large files cost seconds per load/save: fewer and only short histories on them
+        big = size >= 500_000
+        quota = per_file if quick or size < 100_000 else 6 if big else per_file // 8
+        picked = rng.sample(short, min(quota, len(short)))
+        if not big:
+            picked += [rp[1:] for rp in rng.sample(sims, min(quota // 3, len(sims)))]
         seen_f = set()
         for h in picked:
             st = adapt(h, names, allrefs, info[f]["wb_ok"])
@@ -346,7 +348,9 @@ def judge_batch(chk, cases, srcs, tmp, tot):
              "steps": [{"a": "Open", "src": {"kind": "file", "path": srcs.path(c["steps"][0]["src"])}}] + c["steps"][1:]}
         dcases.append(d)
     t0 = time.time()
-    events = vlib.run_cases("lazy", dcases, timeout=120)
+    # (a hang of the library is data: the case becomes a Fatal event; the limit is generous because a corpus file of
+    # a megabyte is loaded three times and saved and reloaded twice per save step, possibly on a busy machine)
+    events = vlib.run_cases("lazy", dcases, timeout=240 if chk.tier == "quick" else 900)
     t1 = time.time()
     # decode every package once (original files, files written by the lazy workbook and by the twin), in parallel
     paths = set()
